@@ -778,6 +778,11 @@ func (r *runner) annotateBlock(kinds []string, reqs []*blockReq, note string) {
 			// the known stale-snapshot window: the change the view misses *was* relayed to the
 			// joiner, but ahead of the SESSION_STATE that then overwrote it
 			mark = " [observer joined during the block and was relayed a change ahead of its SESSION_STATE]"
+		} else if joiners[who] && v.Rule == "view-actions" && r.relayBefore(who, 103, 100) {
+			// the same window in the vikja module: snapshot of the actions, then enqueue
+			mark = " [observer joined during the block and was relayed a change ahead of its VIKJA_STATE]"
+		} else if joiners[who] && v.Rule == "view-assets" && r.relayBefore(who, 203, 200) {
+			mark = " [observer joined during the block and was relayed a change ahead of its ODAL_STATE]"
 		}
 		if len(v.Keys) > 0 && r.listOvertaken(reqs, who, v.Keys) {
 			// the known stale-snapshot window once more: the list answer was computed, a change
@@ -893,6 +898,25 @@ func (r *runner) listOvertaken(reqs []*blockReq, label string, keys []string) bo
 		}
 	}
 	return true
+}
+
+// relayBefore: in its current window the client received a message of type relay before the
+// (module state) message of type state.
+func (r *runner) relayBefore(label string, relay, state int32) bool {
+	for _, c := range r.clients {
+		if c.Label != label {
+			continue
+		}
+		for _, m := range c.Since() {
+			switch m.Type {
+			case state:
+				return false
+			case relay:
+				return true
+			}
+		}
+	}
+	return false
 }
 
 // relayBeforeState: in its current window the client received a relay of someone else's change
